@@ -86,7 +86,9 @@ def session_table(fb):
     vi = dict((n, i) for i, n in fb.variants("values::Value"))
     rle = None
     # (the last form has a line that ends in a blank which is part of a token: the character literal `#\ `)
-    lines = ["(define x", " 1)", "x", "", "(car", "5)", "y", "(display 1)", "(list #\\ ", "  #\\a)"]
+    # (... then forms whose last line holds no closing parenthesis: a string and a |symbol| that span lines, a list whose closing
+    # parenthesis is preceded by lines without one)
+    lines = ["(define x", " 1)", "x", "", "(car", "5)", "y", "(display 1)", "(list #\\ ", "  #\\a)", '"abc', 'def"', "|p", "q|", "'(a", "b", "c", ")"]
     PAY, ERR = V("value-of-x"), V("error")
     VAL = Enum(vi["Symbol"], [PAY])
     VAL.name, VAL.adt = "Symbol", "values::Value"
@@ -170,12 +172,12 @@ def rule_session(ctx, rule_buffer, rule_print, rule_one=None):
         ctx.undecided(rule_buffer, "session", "cannot follow run_with_interpreter on the scripted session (%s)" % d["stuck"], where_of(f))
         return 0
     evals = [e[1] for e in d["events"] if e[0] == "eval"]
-    want = ["(define x\n 1)", "x", "(car\n5)", "y", "(display 1)", "(list #\\ \n  #\\a)"]
+    want = ["(define x\n 1)", "x", "(car\n5)", "y", "(display 1)", "(list #\\ \n  #\\a)", '"abc\ndef"', "|p\nq|", "'(a\nb\nc\n)"]
     ctx.inst(rule_buffer, "session/submissions", {"submitted": evals})
     ctx.oblige(evals == want)
     if evals != want:
         ctx.report(rule_buffer, "session/submissions", "the lines `(define x`, ` 1)`, `x`, ``, `(car`, `5)` (an error), `y`, `(display 1)`, `(list #\\ ` "
-                   "(ending in a blank), `  #\\a)` are submitted as %s; expected %s (the lines exactly as typed, joined by a newline until "
+                   "(ending in a blank), `  #\\a)`, then a string, a |symbol| and a list spread over lines whose last line has no parenthesis, are submitted as %s; expected %s (the lines exactly as typed, joined by a newline until "
                    "complete; the buffer cleared after every submission, failed or not)" % (
                        evals, want), where_of(f))
     if rule_one:
